@@ -1,0 +1,26 @@
+//go:build verif
+
+package httpd
+
+import "github.com/gorilla/mux"
+
+// VerifRouteC19 is one entry of the live gorilla mux route table.
+type VerifRouteC19 struct {
+	Pattern string
+	Methods []string
+}
+
+// VerifWalkRoutesC19 walks the handler's live mux (verification hook for property C19; no behaviour).
+func (h *Handler) VerifWalkRoutesC19() []VerifRouteC19 {
+	var res []VerifRouteC19
+	_ = h.mux.Walk(func(route *mux.Route, router *mux.Router, ancestors []*mux.Route) error {
+		p, err := route.GetPathTemplate()
+		if err != nil {
+			p = "?"
+		}
+		m, _ := route.GetMethods()
+		res = append(res, VerifRouteC19{Pattern: p, Methods: m})
+		return nil
+	})
+	return res
+}
